@@ -85,7 +85,7 @@ def load_topology(wd, moltypes, molecules):
 
 
 # ------------------------------------------------------------------ build files
-def gen_build(rng, moltypes, molecules):
+def gen_build(rng, moltypes, molecules, resnames=('RA', 'RB')):
     inst = [n for n, c in molecules for _ in range(c)]
     blocks, nid = [], 0
     for _ in range(rng.randint(1, 3)):
@@ -95,7 +95,7 @@ def gen_build(rng, moltypes, molecules):
         ds = []
         for _ in range(rng.randint(1, 3)):
             rw = rng.random() < 0.35
-            rn = rng.choice(['RA', 'RB'])
+            rn = rng.choice(list(resnames))
             a = rng.randint(0, 6)
             b = rng.choice([a, a + 1, rng.randint(a, 8)])
             nid += 1
@@ -400,11 +400,103 @@ def ligand_judge(case, res, rec):
     return bad
 
 
+# ------------------------------------------------------------------ gen_coords: -split together with a build file
+class Probe(Exception):
+    pass
+
+
+def directives_of(d):
+    return ([int(float(x[2])) for x in d.get('restraints', [])], [int(float(x[1])) for x in d.get('rw_options', [])])
+
+
+def pipeline_run(case):
+    """the options as gen_coords itself combines them: the residue graphs are observed where the next
+    stage (find_starting_node_from_spec) receives them, then the run is stopped"""
+    snap = {}
+
+    def stop(real):
+        def find_start(topology, start):
+            snap['mols'] = [[(str(mol.nodes[n]['resname']), int(mol.nodes[n]['resid'])) + directives_of(mol.nodes[n]) for n in mol.nodes]
+                            for mol in topology.molecules]
+            raise Probe()
+        return find_start
+    with systems.Workdir() as wd:
+        kw = dict(build=['o.bld'], files={'o.bld': build_text(case['blocks'])}, box=np.array([8.0, 8.0, 8.0]), timeout=60,
+                  hooks={'polyply.src.gen_coords:find_starting_node_from_spec': stop})
+        if case['split']:
+            kw['split'] = [case['split']]
+        res = systems.run_gen_coords(wd, systems.top_text(case['moltypes'], case['molecules']), **kw)
+    return snap.get('mols'), res
+
+
+def pipeline_judge(case, mols, res):
+    if mols is None:
+        return [f"gen_coords stops before the build options are in place: {res.get('exc_type')}: {str(res.get('exception'))[:150]}"]
+    inst = [n for n, c in case['molecules'] for _ in range(c)]
+    if len(mols) != len(inst):
+        return [f"{len(mols)} molecules, the topology lists {len(inst)}"]
+    bad = []
+    present = set()
+    if case['split']:
+        head, *parts = case['split'].split(':')
+        named = {a for part in parts for a in part.split('-')[1].split(',')}
+        present = {mt['name'] for mt in case['moltypes'] if any(a['resname'] == head and a['name'] in named for a in mt['atoms'])}
+    if present & set(inst) and not any(rn in ('NA', 'NB') for rows in mols for rn, *_ in rows):
+        bad.append(f"-split {case['split']!r} created no residue")
+    for idx, (name, rows) in enumerate(zip(inst, mols)):
+        for rn, resid, restr, rws in rows:
+            wr, ww = [], []
+            for bname, lo, hi, ds in case['blocks']:
+                if bname == name and lo <= idx < hi:
+                    for rw, drn, a, b, nid, _ in ds:
+                        if drn == rn and a <= resid < b:
+                            (ww if rw else wr).append(nid)
+            if (restr, rws) != (wr, ww):
+                bad.append(f"molecule {idx} ({name}) residue {rn}{resid} carries restraints {restr} / rw_restrictions {rws}, "
+                           f"the build file names {wr} / {ww} for it" + (f" (run with -split {case['split']})" if case['split'] else ''))
+                return bad
+    return bad
+
+
+def gen_pipeline_case(rng):
+    moltypes, molecules = gen_system(rng, multi=True)
+    for mt in moltypes:
+        for a in mt['atoms']:
+            a['name'] = a['name'][0]
+    split = None
+    if rng.random() < 0.75:
+        resname = rng.choice(sorted({rn for m in moltypes for rn in m['resnames']}))
+        names = sorted({a['name'] for m in moltypes for a in m['atoms'] if a['resname'] == resname})
+        rng.shuffle(names)
+        chosen = names[:rng.randint(1, len(names))]
+        cut = rng.randint(1, len(chosen)) if len(chosen) > 1 else 1
+        news = [('NA', chosen[:cut])] + ([('NB', chosen[cut:])] if chosen[cut:] else [])
+        split = resname + ''.join(f":{nn}-{','.join(ats)}" for nn, ats in news)
+    blocks = gen_build(rng, moltypes, molecules, resnames=('RA', 'RB', 'NA', 'NA', 'NB') if split else ('RA', 'RB'))
+    return {'moltypes': moltypes, 'molecules': molecules, 'blocks': blocks, 'split': split}
+
+
+def pipeline_cases(ctx, n):
+    rng = ctx.rng
+    for _ in range(n):
+        case = gen_pipeline_case(rng)
+        mols, res = pipeline_run(case)
+        hit = bool(mols) and any(r or w for rows in mols for _, _, r, w in rows)
+        ctx.case(('pipeline', case['split'], build_text(case['blocks']), json.dumps(case['molecules'])), nontrivial=hit,
+                 sample={'split': case['split'], 'build': build_text(case['blocks'])[:200], 'molecules': case['molecules']})
+        ctx.feature('gen_coords_build_with_split' if case['split'] else 'gen_coords_build_without_split')
+        if case['split'] and hit and any(rn in ('NA', 'NB') and (r or w) for rows in mols for rn, _, r, w in rows):
+            ctx.feature('directive_on_a_residue_created_by_split')
+        for b in pipeline_judge(case, mols, res)[:1]:
+            ctx.violation('spec', f"C18 fails on the implementation: {b}", {'pipeline_case': case, 'failure': b})
+
+
 def run(ctx):
     ctx.correspondences += ['load_build_files (restraints / rw_options per residue) vs model apply_build',
                             'parse_residue_spec, find_starting_node_from_spec vs model parse_spec / start_node',
                             'split_residue vs model split_atoms; partition judged from the statement',
-                            'gen_coords -lig runs: molecule list unchanged, ligand one step from its residue, handed back']
+                            'gen_coords -lig runs: molecule list unchanged, ligand one step from its residue, handed back',
+                            'gen_coords with -split and a build file together: directives per residue observed where the next stage receives the residue graphs, judged from the statement']
     rng = ctx.rng
     exprs, keep = [], []
     with systems.Workdir() as wd:
@@ -445,6 +537,7 @@ def run(ctx):
         except core.CoqEvalError as exc:
             ctx.note(str(exc)[:800])
             ctx.broken.append('correspondence:selection vs model (evaluation failed)')
+    pipeline_cases(ctx, ctx.n(40, 400))
     for _ in range(ctx.n(8, 80)):
         case, res, rec = ligand_run(rng)
         ctx.case(('lig', json.dumps(case['specs']), json.dumps(case['molecules'])), nontrivial=res['ok'], sample={'specs': case['specs'], 'molecules': case['molecules'], 'steps': rec['steps'][:2]})
@@ -459,6 +552,16 @@ def search(ctx):
 
 def replay(ctx, data):
     print(json.dumps(data, indent=1, default=str)[:2500])
+    if 'pipeline_case' in data:
+        case = data['pipeline_case']
+        case['blocks'] = [(n, lo, hi, [tuple(d) for d in ds]) for n, lo, hi, ds in case['blocks']]
+        case['molecules'] = [tuple(m) for m in case['molecules']]
+        for mt in case['moltypes']:
+            mt['bonds'] = [tuple(b) for b in mt['bonds']]
+        mols, res = pipeline_run(case)
+        bad = pipeline_judge(case, mols, res)
+        print('replay:', ('statement violated: ' + bad[0]) if bad else 'statement satisfied')
+        return 1 if bad else 0
     if 'build' in data:
         blocks = [(n, lo, hi, [tuple(d) for d in ds]) for n, lo, hi, ds in data['build']]
         molecules = [tuple(m) for m in data['molecules']]
